@@ -12,7 +12,7 @@ def check(prog, rep):
     m, pub, fs = Z.zonal_funcs(prog, 'stats')
     entry = lambda f: 'stats'   # noqa
     numpy_side = [f for f in fs if 'dask' not in f.qualname]
-    Z.check_cursors(rep, numpy_side, 'C02', entry)
+    Z.check_cursors(rep, numpy_side, 'C02', entry, prog=prog)
     Z.check_zone_labels(prog, rep, [f for f in fs if f.name in ('_stats_numpy',)], entry)
     Z.check_validity(prog, rep, numpy_side, entry)
     Z.check_unique_zones(prog, rep, fs, entry)
